@@ -2,8 +2,8 @@
 //! installed seams, and describe what was observed.
 use crate::util::*;
 use bindgen::callbacks::{
-    DeriveInfo, DiscoveredItem, DiscoveredItemId, IntKind, ItemInfo,
-    ParseCallbacks, SourceLocation,
+    DeriveInfo, DeriveTrait, DiscoveredItem, DiscoveredItemId, ImplementsTrait,
+    IntKind, ItemInfo, ParseCallbacks, SourceLocation,
 };
 use bindgen::verif::fixpoint as fx;
 use serde_json::{json, Value};
@@ -164,6 +164,21 @@ impl ParseCallbacks for LogCallbacks {
     fn add_derives(&self, info: &DeriveInfo<'_>) -> Vec<String> {
         self.log(format!("add_derives {} {:?}", info.name, info.kind));
         vec![]
+    }
+    /// A fixed function of (name, trait): every answer the API allows occurs.
+    fn blocklisted_type_implements_trait(
+        &self,
+        name: &str,
+        derive_trait: DeriveTrait,
+    ) -> Option<ImplementsTrait> {
+        let h = fp64(format!("{name}/{derive_trait:?}").as_bytes()) % 4;
+        self.log(format!("blocklisted_type_implements_trait {name} {derive_trait:?} -> {h}"));
+        match h {
+            0 => None,
+            1 => Some(ImplementsTrait::Yes),
+            2 => Some(ImplementsTrait::Manually),
+            _ => Some(ImplementsTrait::No),
+        }
     }
     fn new_item_found(
         &self,
